@@ -933,6 +933,9 @@ impl Session {
     }
 
     /// Write buffer to connection with padding applied
+    ///
+    /// On an I/O error the writer guard is dropped before `handle_io_error`, because that
+    /// closes the session and `close()` takes the writer lock itself.
     async fn write_with_padding(&self, mut buffer: BytesMut) -> Result<()> {
         use crate::padding::CHECK_MARK;
         use crate::protocol::{Command, HEADER_OVERHEAD_SIZE};
@@ -946,9 +949,11 @@ impl Session {
             );
             let mut writer = self.writer.lock().await;
             if let Err(e) = writer.write_all(&buffer).await {
+                drop(writer);
                 return Err(self.handle_io_error("write_without_padding", e).await);
             }
             if let Err(e) = writer.flush().await {
+                drop(writer);
                 return Err(self.handle_io_error("flush_without_padding", e).await);
             }
             tracing::info!(
@@ -974,9 +979,11 @@ impl Session {
             // For now, just write directly
             let mut writer = self.writer.lock().await;
             if let Err(e) = writer.write_all(&buffer).await {
+                drop(writer);
                 return Err(self.handle_io_error("write_no_padding_stop", e).await);
             }
             if let Err(e) = writer.flush().await {
+                drop(writer);
                 return Err(self.handle_io_error("flush_no_padding_stop", e).await);
             }
             return Ok(());
@@ -989,9 +996,11 @@ impl Session {
         if pkt_sizes.is_empty() {
             let mut writer = self.writer.lock().await;
             if let Err(e) = writer.write_all(&buffer).await {
+                drop(writer);
                 return Err(self.handle_io_error("write_no_padding_sizes", e).await);
             }
             if let Err(e) = writer.flush().await {
+                drop(writer);
                 return Err(self.handle_io_error("flush_no_padding_sizes", e).await);
             }
             return Ok(());
@@ -1035,6 +1044,7 @@ impl Session {
                     );
                 }
                 if let Err(e) = writer.write_all(&buffer[..size]).await {
+                    drop(writer);
                     return Err(self.handle_io_error("write_padding_split_payload", e).await);
                 }
                 buffer = buffer.split_off(size);
@@ -1056,6 +1066,7 @@ impl Session {
                 }
 
                 if let Err(e) = writer.write_all(&buffer).await {
+                    drop(writer);
                     return Err(self.handle_io_error("write_padding_payload_frame", e).await);
                 }
                 buffer.clear();
@@ -1068,6 +1079,7 @@ impl Session {
                 padding_frame.put_slice(&vec![0u8; size]); // padding data (zeros)
 
                 if let Err(e) = writer.write_all(&padding_frame).await {
+                    drop(writer);
                     return Err(self.handle_io_error("write_padding_frame_only", e).await);
                 }
             }
@@ -1080,12 +1092,14 @@ impl Session {
                 buffer.len()
             );
             if let Err(e) = writer.write_all(&buffer).await {
+                drop(writer);
                 return Err(self.handle_io_error("write_remaining_payload", e).await);
             }
         }
 
         tracing::trace!("[Session] write_with_padding: Flushing writer");
         if let Err(e) = writer.flush().await {
+            drop(writer);
             return Err(self.handle_io_error("flush_with_padding", e).await);
         }
         tracing::debug!("[Session] write_with_padding: Successfully wrote and flushed data");
